@@ -104,3 +104,9 @@ func specPlain6(p *packets.FrameParser) bool {
 //@ ensures[C05.rtt]         ret0 != nil ==> ret0.RTT >= 0 && exists(k, 0, 65536, u.sentProbes[k] != (probeData{}) && u.sentProbes[k].ttl == ret0.TTL && ret0.RTT == now() - u.sentProbes[k].sendTime)
 //@ ensures[C01.fresh]       ret0 != nil ==> fresh(ret0)
 //@ modifies u.mu, ghost clock
+
+//@ func (*UDPv4).Traceroute
+//@ trusted pending: entry point not yet verified against this contract (C10 work item)
+//@ ensures[C10.entry.atom]  ret1 != nil ==> ret0 == nil
+//@ ensures[C03.entry.hops]  ret1 == nil ==> ret0 != nil && forall(i, 0, len(ret0.Hops), ret0.Hops[i] != nil)
+//@ modifies *
